@@ -23,7 +23,8 @@ const sdpH264 = "v=0\r\no=- 0 0 IN IP4 127.0.0.1\r\ns=t\r\nc=IN IP4 0.0.0.0\r\nt
 
 // recording consumer
 type rec struct {
-	mu     sync.Mutex
+	mu      sync.Mutex
+	panicAt int
 	out    []int64
 	hashes []uint32
 	closes int
@@ -38,7 +39,11 @@ func (r *rec) Consume(p media.Pack) {
 		h = (h ^ uint32(b)) * 16777619
 	}
 	r.hashes = append(r.hashes, h)
+	boom := r.panicAt > 0 && len(r.out) == r.panicAt
 	r.mu.Unlock()
+	if boom {
+		panic("lts: consumer panics as scripted")
+	}
 }
 func (r *rec) Close() error { r.mu.Lock(); r.closes++; r.mu.Unlock(); return nil }
 
@@ -95,7 +100,7 @@ func Run(c Val) Val {
 	var cmu sync.Mutex
 	byCid := map[uint32]int{}
 	for i := range recs {
-		recs[i] = &rec{}
+		recs[i] = &rec{panicAt: int(c.At(7).At(i).Int())}
 	}
 	ctl.Role = func(point string, id uint32) string {
 		if point == "consume.pop" || point == "consume.got" || point == "remove.loaded" {
